@@ -159,8 +159,31 @@ func c12Producer(r *Run, t *tape.Tape) {
 		}
 		var env []byte
 		var err error
-		r.Lib(func() { env, err = cose.SignHashEnvelope(ent, signer, h, p) })
+		callSigner := signer
+		if calls > 1 && t.Bool(1, 6, "c12.signer.fails") {
+			// the signing device fails in the middle of a series of calls
+			// that share the base headers (or a signer of another algorithm
+			// is handed in by mistake): that call must fail and leave nothing
+			// behind - neither in the caller's headers nor in later envelopes
+			if t.Bool(1, 3, "c12.signer.otheralg") {
+				if o := otherKey(t, key, false); o != nil {
+					callSigner = r.signerFor(o, false)
+				}
+			} else {
+				callSigner = &SpySigner{Inner: signer, Alg: signer.Algorithm(), Fault: []string{"err", "bytes+err", "err"}[t.Choose(3, "c12.signer.fault")], Tag: "envelope"}
+			}
+			r.Fired("signer.fails-between-envelopes")
+		}
+		r.Lib(func() { env, err = cose.SignHashEnvelope(ent, callSigner, h, p) })
 		r.Op("ENVELOPE", "call %d: %s hash=%d %s %s loc=%v -> %s", c, class, ha, lenClass, ctClass, p.Location != "", errTag(err))
+		if callSigner != signer && err == nil {
+			if sp, ok := callSigner.(*SpySigner); ok && sp != nil {
+				r.Fail("producer-succeeds-with-failing-signer", "SignHashEnvelope returned no error although the signer failed")
+				return
+			}
+			// a signer of another key went through (its algorithm suits the base headers): nothing more to judge for this call
+			continue
+		}
 		r.Outcome(fmt.Sprintf("produce/%s/%s/%s/%s", class, lenClass, ctClass, errTag(err)))
 		r.Check()
 		if s := Snapshot(&h); s != snap0 {
@@ -170,6 +193,9 @@ func c12Producer(r *Run, t *tape.Tape) {
 		if err != nil {
 			if env != nil {
 				r.Fail("producer-returns-bytes-with-error", "SignHashEnvelope returned %d bytes together with %v", len(env), err)
+			}
+			if callSigner != signer {
+				continue // refused because of the signer handed in: the later calls show whether anything was left behind
 			}
 			if registered && lenClass == "right-length" {
 				// refused with the length the algorithm really has: if the
